@@ -64,7 +64,10 @@ def _draw_elem_theta(draw, spec, n_ids, positive=False):
         return draw(gen.vec(gen.real(-2, 2), d)) + draw(gen.vec(gen.logu(1e-2, 2.0), d))
     if k == 'trunc':
         sig = draw(gen.vec(gen.logu(1e-2, 1e2), d))
-        z = draw(gen.vec(gen.real(-3, 5), d))
+        if gen.chance(draw, 0.15):
+            z = draw(gen.vec(gen.real(-8, -4), d))      # far upper tail of the Gaussian
+        else:
+            z = draw(gen.vec(gen.real(-3, 5), d))
         return [gen.r6(a * b) for a, b in zip(z, sig)] + sig
     if k == 'pooled':
         return draw(gen.vec(gen.logu(1e-2, 1e2), d))
